@@ -125,6 +125,11 @@ def handle : List String → String
     match decList? m, code.toNat? with
     | some m, some c => encBool (isNoBody { method := m } { version := [], code := c, reason := [] })
     | _, _ => "bad-arg"
+  | ["dedup", o, n] =>
+    let d (t : String) : Option (Option Str) := if t == "N" then some none else (decList? t).map some
+    match d o, d n with
+    | some o, some n => encBool (revisitHit o n)
+    | _, _ => "bad-arg"
   | ["revisit", b] => match decList? b with | some b => encList (revisitBlock b) | none => "bad-arg"
   | ["py", "status", s] =>
     match decList? s with
